@@ -551,4 +551,18 @@ func (w *wrapNode) Reopen() error {
 	return w.inner.Reopen()
 }
 func (w *wrapNode) Type() el.NodeType { return w.inner.Type() }
+
+// valueNode is a node whose dynamic type is NOT comparable (a struct with a slice field,
+// registered by value): legal, since nothing in the Node contract asks for comparability.
+type valueNode struct {
+	inner el.Node
+	tags  []string
+}
+
+func (v valueNode) Process(ctx context.Context, e *el.Event) (*el.Event, error) {
+	return v.inner.Process(ctx, e)
+}
+func (v valueNode) Reopen() error     { return v.inner.Reopen() }
+func (v valueNode) Type() el.NodeType { return v.inner.Type() }
+func (v valueNode) Unwrap() el.Node   { return v.inner }
 func (w *wrapNode) Unwrap() el.Node   { return w.inner }
